@@ -131,6 +131,9 @@ Definition allow_list : list (site * reason) := [
   (* ---- isomorphism.py ---- *)
   ((f_iso, "MoleculeIsomorphism._cython_compiled_structure", "for for r in a.ring_sizes"), OrderFree "ring_mask_perm");   (* v4 |= 1 << (65 - r) *)
   ((f_iso, "QueryIsomorphism._cython_compiled_query", "for for r in a.ring_sizes"), OrderFree "ring_mask_perm");
+  (* fix d9d8bf3: `any(r > 65 for _, a in other.atoms() for r in a.ring_sizes) or any(... self.atoms() ... for r in a.ring_sizes)`: any() scans *)
+  ((f_iso, "QueryIsomorphism.get_mapping", "for for r in a.ring_sizes"), OrderFree "existsb_perm");
+  ((f_iso, "QueryIsomorphism.get_mapping", "for for r in a.ring_sizes #2"), OrderFree "existsb_perm");
   (* ---- standardize/reaction.py (outside the anchors; listed because it IS seed dependent) ---- *)
   ((f_rxnstd, "StandardizeReaction.__remove_reagents_rules", "call tmp.extend(reagents_st2)"),
      StrSet "GENUINE seed dependence (known finding C19 seed-dependent:rxn-op:remove_reagents): a set of MoleculeContainer, hashed by hash(str(mol)), is appended to the reagents list in set order");
